@@ -174,6 +174,50 @@ Definition spec_file (rows : list row) : state * list (nat * list issue) :=
   let invalid := flat_map (fun ir : nat * row => if row_failed (snd ir) then [fst ir] else []) irows in
   run_onset_checks invalid state0 (spec_time_points irows).
 
+(* ------------------------------------------------------------------ *)
+(* Declarative consequences (not restatements of the model)            *)
+(* ------------------------------------------------------------------ *)
+
+(* the effective time of a group of row r *)
+Definition group_time (r : row) (g : group) : N :=
+  match fst g with Delay (Some d) => (r_onset r + d)%N | _ => r_onset r end.
+
+Lemma index_from_In {B} (l : list B) : forall a i x, nth_error l i = Some x -> In ((a + i)%nat, x) (index_from a l).
+Proof.
+  induction l as [|y l IH]; intros a i x H; [destruct i; discriminate|].
+  destruct i as [|i]; cbn [nth_error index_from] in *.
+  - inversion H; subst. rewrite Nat.add_0_r. left. reflexivity.
+  - right. rewrite <- Nat.add_succ_comm. apply IH. exact H.
+Qed.
+
+(* group_takes_effect_at: EVERY top-level group of EVERY row of a file belongs to the lines of exactly its
+   effective time (onset + delay when its Delay converts to seconds, the row's own onset otherwise), in a
+   line that carries the row's index.  With effective_time (one time point per effective time holding all
+   lines of that time) this is the clause "rows sharing an onset time, and groups shifted by a Delay tag,
+   take effect at their effective time", group by group. *)
+Theorem group_takes_effect_at (rows : list row) (i : nat) (r : row) (g : group) :
+  nth_error rows i = Some r -> In g (r_groups r) ->
+  exists e, In e (lines_at (group_time r g) (index_from 0 rows)) /\ e_orig e = i /\ In (snd g) (e_groups e).
+Proof.
+  intros Hn Hg. pose proof (index_from_In rows 0 i r Hn) as Hin. cbn [Nat.add] in Hin.
+  unfold lines_at, split_entries, group_time.
+  destruct g as [[|[d|]] m]; cbn [fst snd].
+  - exists (mkEntry (r_onset r) i (remaining_groups r)). repeat split.
+    + apply filter_In. split; [|cbn; apply N.eqb_refl]. apply in_or_app. left.
+      apply in_map_iff. exists (i, r). split; [reflexivity | exact Hin].
+    + cbn. rewrite remaining_groups_spec. apply in_map_iff. exists (NoDelay, m). split; [reflexivity|].
+      apply filter_In. split; [exact Hg | reflexivity].
+  - exists (mkEntry (r_onset r + d)%N i [m]). repeat split.
+    + apply filter_In. split; [|cbn; apply N.eqb_refl]. apply in_or_app. right.
+      apply in_flat_map. exists (i, r). split; [exact Hin|]. apply delayed_entry_time. exists d, m. split; [exact Hg | reflexivity].
+    + cbn. left. reflexivity.
+  - exists (mkEntry (r_onset r) i (remaining_groups r)). repeat split.
+    + apply filter_In. split; [|cbn; apply N.eqb_refl]. apply in_or_app. left.
+      apply in_map_iff. exists (i, r). split; [reflexivity | exact Hin].
+    + cbn. rewrite remaining_groups_spec. apply in_map_iff. exists (Delay None, m). split; [reflexivity|].
+      apply filter_In. split; [exact Hg | reflexivity].
+Qed.
+
 (* non-vacuity: a Delay moves an Offset from row 0 (time 1) to time 3, where it is unmatched because
    row 1 (time 2) already closed the scope; equal onsets 4,4 merge and are reported at row 2 *)
 Definition ex_rows : list row :=
